@@ -33,4 +33,110 @@ def yamlToken : List Char → Bool
   | [] => false
   | c :: t => isLetter c && yamlTail t
 
+/-! ### composite forms (docs/SERVICES.md, docs/META.md, docs/DECORATORS.md) -/
+
+def isImportChar (c : Char) : Bool := Rx.importTail.mem c
+def isSlash (c : Char) : Bool := Cls.mem [(47, 47)] c
+def isSpace (c : Char) : Bool := Rx.space.mem c
+
+/-- (optional single `sep`, then a `body` character)* -/
+def sepTail (sep body : Char → Bool) : List Char → Bool
+  | [] => true
+  | a :: t =>
+    if body a then sepTail sep body t
+    else if sep a then
+      match t with
+      | b :: t' => body b && sepTail sep body t'
+      | [] => false
+    else false
+
+/-- import path without quotes: a letter, then letters, digits, `.`, `_`, `-` and single `/` separators,
+not ending in `/` -/
+def baseImport : List Char → Bool
+  | [] => false
+  | c :: t => isLetter c && sepTail isSlash isImportChar t
+
+/-- the text between surrounding double quotes -/
+def unquoted : List Char → Option (List Char)
+  | '"' :: t => if t.getLast? = some '"' then some t.dropLast else none
+  | _ => none
+
+/-- package reference: an import path, bare or in double quotes, or `"."` -/
+def import_ (w : List Char) : Bool :=
+  baseImport w || (match unquoted w with
+    | some m => baseImport m || m == ['.']
+    | none => false)
+
+/-- every way of cutting `w` at one of its dots: `(before, after)` -/
+def splitsAtDot : List Char → List (List Char × List Char)
+  | [] => []
+  | c :: t => (if c = '.' then [([], t)] else []) ++ (splitsAtDot t).map fun ab => (c :: ab.1, ab.2)
+
+/-- `P`, optionally qualified by a package reference and a dot -/
+def qualified (P : List Char → Bool) (w : List Char) : Bool :=
+  P w || (splitsAtDot w).any fun ir => import_ ir.1 && P ir.2
+
+/-- `P`, optionally preceded by the character `c` -/
+def optLead (c : Char) (P : List Char → Bool) (w : List Char) : Bool :=
+  P w || (match w with
+    | a :: r => a == c && P r
+    | [] => false)
+
+/-- Go function / constructor: `[package.]Ident` -/
+def goFunc : List Char → Bool := qualified goToken
+
+/-- service type: `[*][package.]Ident` -/
+def serviceType : List Char → Bool := optLead '*' goFunc
+
+/-- after at least one identifier character: identifier characters, or a dot followed by a letter -/
+def dottedTail : List Char → Bool
+  | [] => true
+  | a :: t =>
+    if isIdentTail a then dottedTail t
+    else if a == '.' then
+      match t with
+      | b :: t' => isLetter b && dottedTail t'
+      | [] => false
+    else false
+
+/-- `Ident(.Ident)*` -/
+def dotted : List Char → Bool
+  | [] => false
+  | c :: t => isLetter c && dottedTail t
+
+/-- the text before a trailing `{}` -/
+def beforeBraces (w : List Char) : Option (List Char) :=
+  if w.drop (w.length - 2) = ['{', '}'] then some (w.take (w.length - 2)) else none
+
+/-- `P` followed by `{}` -/
+def withBraces (P : List Char → Bool) (w : List Char) : Bool :=
+  match beforeBraces w with
+  | some b => P b
+  | none => false
+
+/-- service value: `[&][package.]Ident(.Ident)*` or `[&][package.]Ident{}` -/
+def serviceValue (w : List Char) : Bool :=
+  optLead '&' (qualified dotted) w || optLead '&' (qualified (withBraces goToken)) w
+
+/-- decorator tag: `*` or a tag name -/
+def decoratorTag (w : List Char) : Bool := w == ['*'] || yamlToken w
+
+/-- `@service` -/
+def argService : List Char → Bool
+  | '@' :: r => yamlToken r
+  | _ => false
+
+/-- at least one white-space character (`\s`), then `P` -/
+def afterSpaces (P : List Char → Bool) : List Char → Bool
+  | [] => false
+  | c :: t => isSpace c && (P t || afterSpaces P t)
+
+def keyword (k : List Char) (P : List Char → Bool) (w : List Char) : Bool :=
+  k.isPrefixOf w && P (w.drop k.length)
+
+/-- `!tagged <tag>` -/
+def argTagged : List Char → Bool := keyword ['!','t','a','g','g','e','d'] (afterSpaces yamlToken)
+/-- `!value <service value>` -/
+def argValue : List Char → Bool := keyword ['!','v','a','l','u','e'] (afterSpaces serviceValue)
+
 end GM.Grammar
